@@ -48,9 +48,20 @@ def universe():
     b2 = Blob.from_string(b"blob one\n" * 8 + b"and a second line\n")
     t1 = Tree()
     t1.add(b"f", 0o100644, b1.id)
+    # entry kinds a reachability walk must follow (symlink target blob, executable blob, blob below a subtree - each
+    # referenced by nothing else) and one it must not (a gitlink to a commit that lives in another repository)
+    b3 = Blob.from_string(b"f")
+    b4 = Blob.from_string(b"#!/bin/sh\n")
+    b5 = Blob.from_string(b"below a subtree\n")
+    sub = Tree()
+    sub.add(b"h", 0o100644, b5.id)
     t2 = Tree()
     t2.add(b"f", 0o100644, b2.id)
     t2.add(b"g", 0o100644, b1.id)
+    t2.add(b"l", 0o120000, b3.id)
+    t2.add(b"x", 0o100755, b4.id)
+    t2.add(b"d", 0o040000, sub.id)
+    t2.add(b"m", 0o160000, b"1" * 40)
     c1 = commit(t1, [], b"c1\n", 1000)
     c2 = commit(t2, [c1.id], b"c2\n", 2000)
     tag = Tag()
@@ -68,8 +79,8 @@ def universe():
     tag2.tag_timezone = 0
     tag2.message = b"tag of a tag\n"
     junk = Blob.from_string(b"unreachable junk\n")
-    _U.update(b1=b1, b2=b2, t1=t1, t2=t2, c1=c1, c2=c2, tag=tag, tag2=tag2, junk=junk)
-    _U["groups"] = {"G1": [b1, t1, c1], "G2": [b2, t2, c2], "G3": [tag, tag2], "G4": [junk]}
+    _U.update(b1=b1, b2=b2, b3=b3, b4=b4, b5=b5, sub=sub, t1=t1, t2=t2, c1=c1, c2=c2, tag=tag, tag2=tag2, junk=junk)
+    _U["groups"] = {"G1": [b1, t1, c1], "G2": [b2, b3, b4, b5, sub, t2, c2], "G3": [tag, tag2], "G4": [junk]}
     _U["byid"] = {o.id: (k, o) for k, o in _U.items() if k not in ("groups", "byid")}
     return _U
 
@@ -289,11 +300,15 @@ def _is_old(path):
     return _time.time() - os.path.getmtime(path) > AGED // 2
 
 
-def build_step(root, op):
-    """Apply one builder operation; returns False if it does not apply (would leave refs dangling)."""
+def build_step(root, op, handle=None):
+    """Apply one builder operation; returns False if it does not apply (would leave refs dangling).
+    With `handle` the operation goes through that long-lived Repo (whose caches may be stale); whether a ref
+    operation applies is then still decided by a fresh view of the directory, so that the harness itself
+    never creates a dangling ref."""
     u = universe()
     g = u["groups"]
-    r = _open(root)
+    r = handle if handle is not None else _open(root)
+    truth = _open(root) if handle is not None else r
     try:
         st = r.object_store
         k = op[0]
@@ -334,7 +349,7 @@ def build_step(root, op):
                 return True
             target = u[op[2]]
             need = {"c1": g["G1"], "c2": g["G1"] + g["G2"], "tag": g["G1"] + g["G3"], "tag2": g["G1"] + g["G3"]}[op[2]]
-            if not _present(r, need):
+            if not _present(truth, need):
                 return False
             r.refs[name] = target.id
             return True
@@ -343,14 +358,17 @@ def build_step(root, op):
                 r.refs.set_symbolic_ref(b"HEAD", M)
                 return True
             need = {"c1": g["G1"], "c2": g["G1"] + g["G2"]}[op[1]]
-            if not _present(r, need):
+            if not _present(truth, need):
                 return False
             # detach: HEAD becomes a direct ref (writing through a symbolic HEAD would move the branch)
             r.refs.remove_if_equals(b"HEAD", None)
             r.refs[b"HEAD"] = u[op[1]].id
             return True
     finally:
-        r.close()
+        if handle is None:
+            r.close()
+        else:
+            truth.close()
     raise AssertionError(op)
 
 
@@ -567,6 +585,151 @@ def _judge_sequence(acc, root, build_path, maint_seq, shift):
         live.close()
 
 
+# =========================================================================== (C) two handles on one repository
+# A long-lived Repo ("warm": it has listed the packs, read the refs and looked objects up) keeps working after ANOTHER
+# handle - another process in real life - has run maintenance: it re-adds objects that the foreign maintenance dropped,
+# makes them reachable again and then runs maintenance itself.  Its view of the packs is stale at that point; the
+# statement ("for every history") still requires that nothing reachable is lost.
+FOREIGN_OPS = [("gc", None), ("repack_exclude_unreachable",), ("repack",), ("pack_loose_objects",)]
+T_FOREIGN_OPS = FOREIGN_OPS + [("gc", 0), ("git_repack_ad",), ("git_gc_prune_now",)]
+REVIVE = [
+    [],
+    [("loose", "G2"), ("ref", "m", "c2")],
+    [("pack", "G2"), ("ref", "m", "c2")],
+    [("loose", "G1"), ("ref", "m", "c1")],
+    [("loose", "G1"), ("loose", "G2"), ("head", "c2")],
+    [("loose", "G3"), ("ref", "t", "tag2")],
+    [("loose", "G1"), ("loose", "G3"), ("ref", "t", "tag")],
+]
+OWN_OPS = [("pack_loose_objects",), ("repack",), ("gc", 0)]
+T_OWN_OPS = OWN_OPS + [("gc", None), ("prune", None), ("repack_exclude_unreachable",)]
+
+
+def _warm(r):
+    """Fill every cache a long-lived handle can have: pack list, pack indexes and data files, refs."""
+    st = r.object_store
+    ids = sorted(st)
+    for x in ids:
+        st.get_raw(x)
+        x in st
+    r.refs.as_dict()
+    st.get_commit_graph() if hasattr(st, "get_commit_graph") else None
+    return ids
+
+
+def _closure_now(root):
+    clo, allids = _state_of(root)
+    return clo
+
+
+def _check_closure(acc, K, desc, rpl, clo, views):
+    for who, repo in views:
+        for oid in sorted(clo):
+            try:
+                o = repo.object_store[oid]
+                if raw_hash(o) != oid:
+                    acc.violation(K + "reachable-object-corrupted(%s-store)" % who, "%s: %s now hashes to %s" % (desc, short(oid), raw_hash(o)[:8].decode()), rpl)
+                    return False
+            except KeyError:
+                acc.violation(K + "reachable-object-lost(%s-store)" % who, "%s: %s (reachable from a ref or HEAD) is no longer readable" % (desc, short(oid)), rpl)
+                return False
+            except Exception as e:
+                acc.violation(K + "reachable-object-unreadable(%s-store):%s" % (who, type(e).__name__), "%s: %s: %s" % (desc, short(oid), str(e)[:80]), rpl)
+                return False
+    return True
+
+
+def case_two_handles(acc, build_path, foreign, revive, own, shift):
+    """layout ; warm handle A opened ; `foreign` maintenance by another handle ; A re-adds objects and re-points refs
+    (`revive`) ; A runs `own` maintenance.  After every step the closure of all refs and HEAD - as a fresh handle sees
+    it before the step, plus what the step itself made reachable - must be readable through A and through a fresh handle."""
+    root = fresh_dir("c10h")
+    try:
+        from dulwich.repo import Repo
+
+        os.makedirs(os.path.join(root, "repo"))
+        r0 = Repo.init_bare(os.path.join(root, "repo"))
+        cfg = r0.get_config()
+        cfg.set((b"gc",), b"auto", b"0")
+        cfg.write_to_path()
+        r0.close()
+        build_path = [tuple(b) for b in build_path]
+        revive = [tuple(b) for b in revive]
+        foreign, own = tuple(foreign), tuple(own)
+        for op in build_path:
+            build_step(root, op)
+        before = canon_layout(root)
+        A = _open(root)
+        try:
+            _warm(A)
+            desc0 = "layout [%s] ; handle A warmed ; another handle runs %s" % (" ; ".join("/".join(str(x) for x in b) for b in build_path), opname(foreign))
+            rpl = rp(case_two_handles, [list(b) for b in build_path], list(foreign), [list(b) for b in revive], list(own), shift)
+            clo = _closure_now(root)
+            B = _open(root)
+            try:
+                run_maint(B, root, foreign, shift)
+            except Exception as e:
+                acc.outcome("two-handles:foreign:%s:raises:%s" % (foreign[0], type(e).__name__))
+            finally:
+                B.close()
+            if canon_layout(root) == before:
+                acc.outcome("two-handles:foreign-op-changed-nothing(skipped)")
+                return
+            acc.count("two_handle_steps")
+            F = _open(root)
+            try:
+                if not _check_closure(acc, "two-handles:after-foreign-%s:" % foreign[0], desc0, rpl, clo, (("warm", A), ("reopened", F))):
+                    return
+            finally:
+                F.close()
+            desc = desc0
+            for b in revive:
+                try:
+                    ok = build_step(root, b, handle=A)
+                except Exception as e:
+                    acc.outcome("two-handles:revive:%s:raises:%s" % (b[0], type(e).__name__))
+                    ok = False
+                if not ok:
+                    acc.outcome("two-handles:revive-step-not-applicable")
+                    return
+                desc += " ; A: " + "/".join(str(x) for x in b)
+                acc.count("two_handle_steps")
+                clo = _closure_now(root) | clo
+                F = _open(root)
+                try:
+                    if not _check_closure(acc, "two-handles:after-revive-%s:" % b[0], desc, rpl, clo, (("warm", A), ("reopened", F))):
+                        return
+                finally:
+                    F.close()
+            clo = _closure_now(root)
+            desc += " ; A: " + opname(own)
+            try:
+                run_maint(A, root, own, shift)
+                acc.outcome("two-handles:%s:ok" % own[0])
+            except Exception as e:
+                acc.outcome("two-handles:%s:raises:%s" % (own[0], type(e).__name__))
+            acc.count("two_handle_steps")
+            acc.count("two_handle_histories")
+            F = _open(root)
+            try:
+                _check_closure(acc, "two-handles:own-%s:" % own[0], desc, rpl, clo, (("warm", A), ("reopened", F)))
+            finally:
+                F.close()
+        finally:
+            A.close()
+    finally:
+        rmtree(root)
+
+
+def work_two_handles(task):
+    acc = Acc()
+    for build_path, foreign, shift, revives, owns in task:
+        for rv in revives:
+            for own in owns:
+                case_two_handles(acc, build_path, foreign, rv, own, shift)
+    return acc
+
+
 def explore_layouts(depth):
     """BFS closure (bounded depth) of the builder operations; returns list of build paths, one per
     distinct canonical layout."""
@@ -709,21 +872,35 @@ def run(ctx):
             tasks.append((p, seqs1 + pairs if (not q or len(p) >= 3) else seqs1, shift))
     chunks = split(ctx.order(tasks), ctx.jobs * 8)
     pmap_acc(work_maint, chunks, ctx.acc, jobs=ctx.jobs)
+    # (C) two handles: layouts reachable by <=3 builder operations in both tiers
+    paths3 = [p for p in paths if len(p) <= 3]
+    t2 = []
+    for p in paths3:
+        if not any(b[0] in ("loose", "pack", "alt") for b in p):
+            continue
+        for f in (FOREIGN_OPS[:3] if q else T_FOREIGN_OPS):
+            for shift in ((0,) if q else (0, 30 * DAY)):
+                t2.append((p, f, shift, REVIVE[:4] + REVIVE[5:6] if q else REVIVE, OWN_OPS[::2] if q else T_OWN_OPS))
+    pmap_acc(work_two_handles, split(ctx.order(t2), ctx.jobs * 8), ctx.acc, jobs=ctx.jobs)
     n = ctx.acc.n
     ctx.level = "model_checking"
     ctx.coverage.update(
         states=len(paths),
-        transitions=n.get("maintenance_steps", 0),
-        traces_validated_against_impl=n.get("maintenance_steps", 0) + n.get("race_executions", 0),
-        evaluations=n.get("maintenance_steps", 0) + n.get("race_executions", 0),
+        transitions=n.get("maintenance_steps", 0) + n.get("two_handle_steps", 0),
+        traces_validated_against_impl=n.get("maintenance_steps", 0) + n.get("race_executions", 0) + n.get("two_handle_steps", 0),
+        evaluations=n.get("maintenance_steps", 0) + n.get("race_executions", 0) + n.get("two_handle_steps", 0),
         distinct_nontrivial=len(ctx.acc.classes),
         rule="(A) layouts = distinct canonical repositories (refs + partition of objects into loose / packs / alternate) reachable by <=%d of %d builder "
-             "operations over a 9-object universe (incl. a tag of a tag); from each, every maintenance operation and pair (of %d) under clock +0 and +30 days; oracle on live and reopened store. "
-             "(B) reader x repacker x layout x warm/cold, all interleavings with <=%d preemption(s) (conflict-filtered)." % (
-                 3 if q else 4, len(BUILD_OPS), len(ops), 1 if q else 2),
+             "operations over a 13-object universe (incl. a tag of a tag and a tree with symlink, executable, subtree and gitlink entries); from each, every maintenance operation and pair (of %d) under clock +0 and +30 days; oracle on live and reopened store. "
+             "(B) reader x repacker x layout x warm/cold, all interleavings with <=%d preemption(s) (conflict-filtered). "
+             "(C) two handles: from every layout of <=3 builder operations a warm long-lived Repo A; each of %d foreign maintenance operations run by another "
+             "handle (kept when it changed the layout) x %d revive programs through A (re-add dropped objects loose or packed, re-point a ref or HEAD) x %d "
+             "maintenance operations through A; closure readable through A and a fresh handle after every step." % (
+                 3 if q else 4, len(BUILD_OPS), len(ops), 1 if q else 2, len(FOREIGN_OPS[:3] if q else T_FOREIGN_OPS), 5 if q else len(REVIVE), len(OWN_OPS[::2] if q else T_OWN_OPS)),
         exhaustive=True,
         layouts=len(paths),
         race_executions=n.get("race_executions", 0),
+        two_handle_histories=n.get("two_handle_histories", 0),
     )
     ctx.assumptions += [
         "the clock is shifted for the maintenance code (dulwich.gc / dulwich.object_store time module); the builder operation 'age' "
